@@ -84,6 +84,13 @@ func (s *Stream) Nonce() uint64 {
 	}))
 }
 
+// Fixed records a decision whose value the caller computed (an enumeration index,
+// not a random draw); on replay the recorded value comes back, so enumerated
+// runs replay and minimise like random ones.
+func (s *Stream) Fixed(v uint32) uint32 {
+	return s.next(func() uint32 { return v })
+}
+
 // Intn draws a workload decision.
 func (s *Stream) Intn(n int) int { return s.Choose(n, nil, "") }
 
@@ -145,9 +152,9 @@ type Result struct {
 	Components map[string]any `json:"components,omitempty"`
 }
 
-func (r *Result) Fault(kind string)        { r.FaultN(kind, 1) }
+func (r *Result) Fault(kind string)         { r.FaultN(kind, 1) }
 func (r *Result) FaultN(kind string, n int) { inc(&r.Faults, kind, n) }
-func (r *Result) Probe(name string)        { inc(&r.Probes, name, 1) }
+func (r *Result) Probe(name string)         { inc(&r.Probes, name, 1) }
 func (r *Result) ProbeN(name string, n int) { inc(&r.Probes, name, n) }
 func inc(m *map[string]int, k string, n int) {
 	if *m == nil {
